@@ -98,6 +98,8 @@ def norm_effects(seg):
             out.append("%s %s..%s" % (e[1], e[2], e[3]))
         elif k == "stash":
             out.append("stash cursor@%s" % e[2])
+        elif k == "order":
+            out.append("folds with %s" % e[1])
         elif k == "uarg":
             out.append("passes %s" % e[1].replace(" ", ""))
         elif k == "oparg":
@@ -323,7 +325,9 @@ def dump(comp_edges):
             e.src, e.res, e.dst, e.effects, e.facts = k[0], k[1], dst, ef, frozenset(g)
             pref = [d for d in ("before", "E", "pre_op", "pre_expr") if d in pos] or sorted(pos)
             e.pos = pref[0] if pref else "any"
-            if dst == "EXIT Err" and e.pos not in ("pre_op", "pre_expr"):
-                e.pos = "any"
+            if dst == "EXIT Err":
+                # F1 bodies may leave the input anywhere on Err; Pratt operators must have restored it
+                op = [d for d in ("pre_op", "pre_expr") if d in pos]
+                e.pos = op[0] if op else "any"
             lines.append("  " + e.fmt(list(g)))
     return "\n".join(dict.fromkeys(lines))
